@@ -649,5 +649,32 @@ func r11_5(c *Ctx, r *Report) {
 
 // R11.6: both hour routes (Lunar.computeTime and NewLunarTime) hand the same rendering to the one slot function.
 func r11_6(c *Ctx, r *Report) {
-	likeWithLikeRule(c, r, "R11.6", func(fn *ssa.Function) bool { return fname(fn) == "LunarUtil.GetTimeZhiIndex" }, 2)
+	const rule = "R11.6"
+	r.rule(rule, "Clock strings handed to the slot lookup are fixed-width. Every library call of LunarUtil.GetTimeZhiIndex passes a rendering of kind HH:MM or HH:MM:SS (zero-padded, so that the string order the lookup relies on is the clock order; what the lookup does with such a string is R05.7), or passes a client's string through unchanged.")
+	fn := c.Fn(r, rule, "LunarUtil.GetTimeZhiIndex")
+	if fn == nil {
+		return
+	}
+	n := 0
+	seen := map[string]int{}
+	for _, caller := range c.Funcs {
+		for _, b := range caller.Blocks {
+			for _, ins := range b.Instrs {
+				call, ok := ins.(*ssa.Call)
+				if !ok || call.Common().StaticCallee() != fn || len(call.Common().Args) != 1 {
+					continue
+				}
+				k := c.renderKind(call.Common().Args[0], 0)
+				if k == "" {
+					continue
+				}
+				n++
+				construct := uniq(seen, fmt.Sprintf("%s: GetTimeZhiIndex(%s)", fname(caller), k))
+				r.check(k == "HH:MM" || k == "HH:MM:SS", rule, construct, c.pos(call.Pos()), "the clock string is rendered as "+k+": a string that is not zero-padded to a fixed width does not sort like the time it shows")
+			}
+		}
+	}
+	if n < 2 {
+		r.bad(rule, "instance floor "+rule, "-", fmt.Sprintf("only %d typed call sites found (floor 2)", n))
+	}
 }
